@@ -741,6 +741,25 @@ func runC14(c *Ctx, r *Run) {
 				})
 			}
 			if xorBlk == nil {
+				// the combined key is built into a fresh slice and then assigned: r.chainKey = <bytes computed with ^>
+				allInstrs(fn, func(in ssa.Instruction) {
+					st, ok := in.(*ssa.Store)
+					if !ok {
+						return
+					}
+					fa, ok := st.Addr.(*ssa.FieldAddr)
+					if !ok || fieldName(fa.X.Type(), fa.Field) != "chainKey" {
+						return
+					}
+					if dependsOn(st.Val, func(v ssa.Value) bool {
+						bo, isBo := v.(*ssa.BinOp)
+						return isBo && bo.Op == token.XOR
+					}) {
+						xorBlk, viaHelper = st.Block(), true
+					}
+				})
+			}
+			if xorBlk == nil {
 				// the combination moved into a helper: a call handing recv.chainKey to a module function that XORs into its parameter
 				allInstrs(fn, func(in ssa.Instruction) {
 					call, ok := in.(*ssa.Call)
